@@ -310,6 +310,25 @@ def _api_history(seed):
             text, ok = "raises " + type(e).__name__, False
         if not ok:
             out.append(({"kind": "api_operation_executed_by_another_backend", "selected": b}, {"seed": seed, "code": text[:300]}))
+        # every public entry point hands the backend argument on - the deprecated alias einx.rearrange too
+        import warnings
+        with warnings.catch_warnings():
+            warnings.simplefilter("ignore")
+            try:
+                t1 = einx.rearrange("a b -> b a", x, backend=b, graph=True)
+            except BaseException as e:  # noqa: BLE001
+                t1 = "raises " + type(e).__name__
+            try:
+                t2 = einx.id("a b -> b a", x, backend=b, graph=True)
+            except BaseException as e:  # noqa: BLE001
+                t2 = "raises " + type(e).__name__
+            try:
+                einx.rearrange("a b -> b a", x, backend="no_such_backend")
+                t3 = "returns"
+            except BaseException as e:  # noqa: BLE001
+                t3 = type(e).__name__
+        if t1 != t2 or t3 != "ValueError":
+            out.append(({"kind": "api_entry_point_ignores_the_backend_argument", "selected": b, "unknown_name": t3}, {"seed": seed, "rearrange": str(t1)[:200], "id": str(t2)[:200]}))
         try:
             einx.flip("a [b]", x, backend=b)
             got = "ok"
